@@ -98,7 +98,10 @@ class MapV:
     __slots__ = ("entries", "name")
 
     def __init__(self, name, entries=None):
-        self.name, self.entries = name, [list(e) for e in (entries or [])]
+        # entries: [present (z3 Bool), key, Cell(value)] — values live in cells so that references
+        # handed out by get / get_mut / iteration / entry() alias the map's own storage
+        self.name = name
+        self.entries = [[e[0], e[1], e[2] if isinstance(e[2], Cell) else Cell(e[2])] for e in (entries or [])]
 
 
 UNIT = Agg("tuple", "()", [])
@@ -691,7 +694,10 @@ class Executor:
             v = self.read_place(st, rv[1])
             if isinstance(v, EnumV):
                 d = self.discr_of(v)
-                return d if isinstance(d, I) else I(bv(d, 64), True)
+                d = d if isinstance(d, I) else I(bv(d, 64), True)
+                if dest_ty in INT_TYPES and INT_TYPES[dest_ty][0] != d.width:
+                    d = self.cast_int(d, dest_ty)
+                return d
             if isinstance(v, Opaque):
                 if "discr" not in v.children:
                     v.children["discr"] = I(z3.BitVec(v.name + ".discr", 64), True)
